@@ -328,6 +328,23 @@ impl IndKey {
             }
         }
     }
+    /// a valid low-S secp256k1 signature made with the nonce k = 1/2 (mod n): r is then the 166-bit
+    /// x coordinate of G/2, so the 64-byte form starts with eleven zero bytes (a signer is free to
+    /// choose its nonce).  `None` for the other key kinds.
+    pub fn sign_half_nonce(&self, msg: &[u8]) -> Option<Vec<u8>> {
+        if self.kind != Kind::Secp {
+            return None;
+        }
+        use enr::k256::ecdsa::hazmat::SignPrimitive;
+        use enr::k256::{FieldBytes, Scalar};
+        let z: FieldBytes = keccak(msg).into();
+        let k = Scalar::from(2u64).invert().unwrap();
+        let key = enr::k256::ecdsa::SigningKey::from_slice(&self.sk).ok()?;
+        let d: Scalar = **key.as_nonzero_scalar();
+        let (sig, _) = d.try_sign_prehashed(k, &z).ok()?;
+        let sig = sig.normalize_s().unwrap_or(sig);
+        Some(sig.to_vec())
+    }
     /// the secret in the form `Sch::from_secret` of scheme `name` expects
     pub fn secret_for(&self, name: &str) -> Vec<u8> {
         if name == "comb" {
